@@ -158,6 +158,8 @@ def readers_writers(sp, rig="L", api="scan", writer="txn_delete_rollback", K=2, 
         sp.reach("ran")
         tag = f"{rig}:{api}:{writer}"
         for tid, r in sc.results.items():
+            if writers > 1 and type(r[1]).__name__ == "ConcurrentModificationException":
+                continue  # with rival writers a commit without a retry loop (delete_snapshot) may legitimately lose the race
             sp.require(r[0] == "ok", f"{tag}: actor {tid} failed with {r[1]!r} (schedule {trace})", {"sig": f"{tag}:actor-failed:{type(r[1]).__name__}"})
         # versions: initial pointer + every applied flip, each with the rows of its current snapshot
         with w.inspect():
